@@ -26,7 +26,7 @@ func init() {
 var profC03 = Profile{
 	MaxBars: 6, MinBars: 2, MaxSteps: 30, Refresh: []string{"autoinj", "autoinj", "autort"}, QLens: []int{-1, -1, -4},
 	Pop: 30, Queue: 20, Prio: true, Ext: 15, Text: 1, Rm: 30, NoPop: 25, AbortW: 3, TicksW: 4,
-	SyncDecors: 1, PlainDecors: 1, Wraps: true, OnCompleteFill: 50, Cancel: 12, PostTerm: true,
+	SyncDecors: 1, PlainDecors: 1, Wraps: true, DisabledPct: 6, OnCompleteFill: 50, Cancel: 12, PostTerm: true,
 	Fillers: []string{"bar", "tag", "spinner"}, LateAdd: true,
 }
 
@@ -91,6 +91,9 @@ func checkFinalRow(sc *engine.Scenario, i int, row *engine.Row, e engine.EndBar)
 	}
 	want := map[string]int{}
 	for _, d := range spec.Decors {
+		if d.Disabled {
+			continue
+		}
 		if txt, sub := decorFinalText(d.Wrap, e.Completed, e.Aborted); sub && txt != "" {
 			want[txt]++
 		}
